@@ -207,6 +207,8 @@ func C08(c *Ctx) {
 	c.R.Rule("C08-R8", "E3", "a successful Exec hands back the execution that collected the emitted messages", 1)
 	c08ExecHandsBack(c, "C08-R8")
 	c08Wrappers(c, "C08-R1")
+	c.R.Rule("C08-R9", "E3", "only nothing, a map or bindings count as the bindings an action returned", 1)
+	c08ResultKinds(c, "C08-R9")
 	c08WalkHandedBack(c, "C08-R5")
 	c08Guards(c)
 	c08Order(c)
